@@ -138,7 +138,8 @@ func requiredPropagation(r *core.Run) {
 			}
 		case *ast.IfStmt:
 			if isFlag(x.Cond) {
-				ast.Inspect(x.Body, func(m ast.Node) bool {
+				// the body and the same-package helpers it calls (`markRequired(ww, options)`)
+				core.InspectTree(pk, x.Body, func(m ast.Node) bool {
 					switch y := m.(type) {
 					case *ast.AssignStmt:
 						if len(y.Lhs) == 1 && strings.HasSuffix(core.ExprStr(y.Lhs[0]), ".Required") && core.ExprStr(ptrArg(y.Rhs[0])) == "true" {
